@@ -32,7 +32,8 @@ Inductive tmo := TNone | TZero | TFin.
 Record getk := { gw : tmo; gc : tmo; gr : tmo }.
 
 (* pooled object with its Metrics; [created]/[recycled] are logical clock stamps *)
-Record obj := { oid : nat; created : nat; recycled : option nat; rcount : nat }.
+(* [since] is a ghost stamp: the logical time at which the object became idle *)
+Record obj := { oid : nat; created : nat; recycled : option nat; rcount : nat; since : nat }.
 
 Record cfg := {
   max0 : nat;            (* configured max_size *)
@@ -241,7 +242,8 @@ Definition hand_out (s : state) (t : nat) (o : obj) : state :=
   setpc (emit (set_out s (o :: out s)) (EHandOut o t)) t (PDone ROk).
 
 Definition recycled_obj (s : state) (o : obj) : obj :=
-  {| oid := oid o; created := created o; recycled := Some (clock s); rcount := S (rcount o) |}.
+  {| oid := oid o; created := created o; recycled := Some (clock s); rcount := S (rcount o);
+     since := since o |}.
 
 (* after stage [st] succeeded *)
 Definition next_stage (c : cfg) (s : state) (t : nat) (g : getk) (o : obj) (st : stage) : state :=
@@ -369,6 +371,10 @@ Definition start (c : cfg) (s : state) (t : nat) (o : op) : option state :=
       else None
   end.
 
+(* the object as it is put into the idle queue: stamped with the current logical time *)
+Definition idle_at (s : state) (o : obj) : obj :=
+  {| oid := oid o; created := created o; recycled := recycled o; rcount := rcount o; since := clock s |}.
+
 (* ------------------------------------------------------------------ Step *)
 (* the acquire attempt at "get.acquire" / "get.reacquire" *)
 Definition acquire (c : cfg) (s : state) (t : nat) (g : getk) : state :=
@@ -439,7 +445,7 @@ Definition step_task (c : cfg) (s : state) (t : nat) : option state :=
       if alive s then Some (setpc (set_users s (users s - 1)) t (RLock o))
       else Some (setpc (emit s (EDestroy (oid o) t)) t (PDone RUnit))
   | RLock o =>
-      if Z.leb (size s) (maxs s) then Some (setpc (set_vec s (vec s ++ [o])) t RAdd)
+      if Z.leb (size s) (maxs s) then Some (setpc (set_vec s (vec s ++ [idle_at s o])) t RAdd)
       else Some (setpc (set_size s (size s - 1)) t (RSurplus o))
   | RAdd => Some (setpc (sem_add s) t (PDone RUnit))
   | RSurplus o => Some (setpc (sem_add s) t (RDetach o))
@@ -470,7 +476,7 @@ Definition step_task (c : cfg) (s : state) (t : nat) : option state :=
 
 (* ------------------------------------------------------------------ Env / Cancel / Fire *)
 Definition new_obj (s : state) : obj :=
-  {| oid := next_oid s; created := clock s; recycled := None; rcount := 0 |}.
+  {| oid := next_oid s; created := clock s; recycled := None; rcount := 0; since := 0 |}.
 
 Definition env_task (c : cfg) (s : state) (t : nat) (r : outcome) : option state :=
   match pcof s t with
